@@ -79,6 +79,71 @@ pub fn ipv6_loopback() -> bool {
     *PROBE.get_or_init(|| std::net::TcpListener::bind("[::1]:0").is_ok())
 }
 
+/// Dual-stack sub-matrix: the target is named by a host name that resolves to BOTH loopback
+/// addresses (through a hosts file that exists only in a private mount namespace, see `c01.rs`).
+/// The two names differ in the order of their lines in that file.
+#[derive(Clone, Copy, Debug, PartialEq, Eq, Hash)]
+pub enum DualName {
+    /// `::1` line first, `127.0.0.1` line second
+    V64,
+    /// `127.0.0.1` line first, `::1` line second
+    V46,
+}
+
+impl DualName {
+    pub const ALL: [DualName; 2] = [DualName::V64, DualName::V46];
+    pub fn host(self) -> &'static str {
+        match self {
+            DualName::V64 => "vdual64.test",
+            DualName::V46 => "vdual46.test",
+        }
+    }
+    pub fn parse(s: &str) -> Option<Self> {
+        Self::ALL.into_iter().find(|e| e.host() == s)
+    }
+}
+
+/// Dual-stack sub-matrix: the loopback address(es) the target listens on (one port number).
+#[derive(Clone, Copy, Debug, PartialEq, Eq, Hash)]
+pub enum Listen {
+    V4,
+    V6,
+    Both,
+}
+
+impl Listen {
+    pub const ALL: [Listen; 3] = [Listen::V4, Listen::V6, Listen::Both];
+    pub fn name(self) -> &'static str {
+        match self {
+            Listen::V4 => "127.0.0.1",
+            Listen::V6 => "[::1]",
+            Listen::Both => "127.0.0.1+[::1]",
+        }
+    }
+    pub fn parse(s: &str) -> Option<Self> {
+        Self::ALL.into_iter().find(|e| e.name() == s)
+    }
+}
+
+#[derive(Clone, Copy, Debug, PartialEq, Eq, Hash)]
+pub struct Dual {
+    pub name: DualName,
+    pub listen: Listen,
+}
+
+/// the entry points that can name a target by host name
+pub const DUAL_ENTRIES: [Entry; 4] = [Entry::TcpRemote, Entry::Socks5Domain, Entry::Socks4a, Entry::HttpConnect];
+
+/// The hosts file of the private mount namespace: `localhost` stays what the rest of the matrix
+/// assumes (127.0.0.1 only), the two test names get both loopback addresses.
+pub fn dual_hosts_file() -> String {
+    format!(
+        "127.0.0.1 localhost\n::1 ip6-localhost ip6-loopback\n::1 {a}\n127.0.0.1 {a}\n127.0.0.1 {b}\n::1 {b}\n",
+        a = DualName::V64.host(),
+        b = DualName::V46.host()
+    )
+}
+
 #[derive(Clone, Copy, Debug, PartialEq, Eq, Hash)]
 pub enum Chunk {
     /// the whole payload in one `write_all`
@@ -142,10 +207,28 @@ pub struct TcpCase {
     pub chunk: Chunk,
     pub order: Order,
     pub conc: usize,
+    /// Some: a point of the dual-stack sub-matrix (the target is named by a dual-stack host name)
+    pub dual: Option<Dual>,
 }
 
 impl TcpCase {
+    /// the entry family as it appears inside violation keys
+    pub fn family(&self) -> String {
+        match self.dual {
+            Some(_) => format!("dual-stack-name.{}", self.entry.family()),
+            None => self.entry.family().to_string(),
+        }
+    }
     pub fn to_json(&self) -> Value {
+        let mut v = self.to_json_plain();
+        if let Some(d) = self.dual {
+            v["dual_stack_name"] = json!(d.name.host());
+            v["target_listens_on"] = json!(d.listen.name());
+            v["hosts_file_of_the_private_mount_namespace"] = json!(dual_hosts_file());
+        }
+        v
+    }
+    fn to_json_plain(&self) -> Value {
         json!({
             "kind": "tcp", "entry": self.entry.name(), "c2t_len": self.c2t, "t2c_len": self.t2c,
             "chunking": self.chunk.name(), "close_order": self.order.name(), "connections": self.conc,
@@ -156,7 +239,12 @@ impl TcpCase {
         })
     }
     pub fn from_json(v: &Value) -> Option<Self> {
+        let dual = match v.get("dual_stack_name").and_then(Value::as_str) {
+            Some(n) => Some(Dual { name: DualName::parse(n)?, listen: Listen::parse(v["target_listens_on"].as_str()?)? }),
+            None => None,
+        };
         Some(Self {
+            dual,
             entry: Entry::parse(v["entry"].as_str()?)?,
             c2t: usize::try_from(v["c2t_len"].as_u64()?).ok()?,
             t2c: usize::try_from(v["t2c_len"].as_u64()?).ok()?,
@@ -166,7 +254,8 @@ impl TcpCase {
         })
     }
     pub fn label(&self) -> String {
-        format!("tcp {} c2t={} t2c={} {} {} x{}", self.entry.name(), self.c2t, self.t2c, self.chunk.name(), self.order.name(), self.conc)
+        let dual = self.dual.map_or_else(String::new, |d| format!(" dual-stack-name {} target-on {}", d.name.host(), d.listen.name()));
+        format!("tcp {}{dual} c2t={} t2c={} {} {} x{}", self.entry.name(), self.c2t, self.t2c, self.chunk.name(), self.order.name(), self.conc)
     }
 }
 
@@ -225,6 +314,9 @@ pub struct TcpOutcome {
     pub port_race: bool,
     pub stats: TcpStats,
     pub wall: Duration,
+    /// dual-stack sub-matrix: the direct control connection to (name, port) did not work either,
+    /// so there is nothing the tunnel could be compared with (the reason)
+    pub vacuous: Option<String>,
 }
 
 #[derive(Clone, Copy, Debug, PartialEq, Eq)]
@@ -497,41 +589,146 @@ async fn client_conn(i: usize, case: TcpCase, ep: Arc<EntryPoint>, target: Socke
     let _ = done.send(());
 }
 
+/// Dual-stack sub-matrix, the differential oracle: what does a direct connection to (name, port)
+/// do, made by this very process right now? One byte each way. Ok((the address that was reached,
+/// what the name resolved to)) or Err(why it did not work: the matrix point is vacuous).
+async fn dual_control(name: &str, port: u16, listeners: &[TcpListener]) -> Result<(SocketAddr, Vec<SocketAddr>), String> {
+    const LIMIT: Duration = Duration::from_secs(5);
+    let resolved: Vec<SocketAddr> = match tokio::time::timeout(LIMIT, tokio::net::lookup_host((name, port))).await {
+        Ok(Ok(it)) => it.collect(),
+        Ok(Err(e)) => return Err(format!("{name} does not resolve: {e}")),
+        Err(_) => return Err(format!("resolving {name} took more than {LIMIT:?}")),
+    };
+    let server = async {
+        let accepted = match listeners {
+            [a] => a.accept().await,
+            [a, b] => tokio::select! { r = a.accept() => r, r = b.accept() => r },
+            _ => return,
+        };
+        let Ok((mut s, _)) = accepted else { return };
+        let mut b = [0u8; 1];
+        if s.read_exact(&mut b).await.is_ok() && s.write_all(&[!b[0]]).await.is_ok() {
+            // until the other end closes
+            let _ = s.read(&mut b).await;
+        }
+    };
+    let client = async {
+        let mut s = match tokio::time::timeout(LIMIT, TcpStream::connect((name, port))).await {
+            Ok(Ok(s)) => s,
+            Ok(Err(e)) => return Err(format!("a direct connection to {name}:{port} fails: {e}")),
+            Err(_) => return Err(format!("a direct connection to {name}:{port} was not established within {LIMIT:?}")),
+        };
+        let peer = s.peer_addr().map_err(|e| format!("peer_addr: {e}"))?;
+        let mut b = [0u8; 1];
+        match tokio::time::timeout(LIMIT, async {
+            s.write_all(&[0xC7]).await?;
+            s.read_exact(&mut b).await
+        })
+        .await
+        {
+            Ok(Ok(_)) if b[0] == !0xC7u8 => Ok(peer),
+            Ok(Ok(_)) => Err(format!("a direct connection to {name}:{port} reached {peer}, which is not the target of this scenario (it answered {:02x})", b[0])),
+            Ok(Err(e)) => Err(format!("a direct connection to {name}:{port} reached {peer} but the byte exchange failed: {e}")),
+            Err(_) => Err(format!("a direct connection to {name}:{port} reached {peer} but the byte exchange took more than {LIMIT:?}")),
+        }
+    };
+    tokio::pin!(server);
+    tokio::pin!(client);
+    let mut sdone = false;
+    let r = loop {
+        tokio::select! {
+            r = &mut client => break r,
+            () = &mut server, if !sdone => sdone = true,
+        }
+    };
+    r.map(|peer| (peer, resolved))
+}
+
 /// Run one matrix point once. `deadline_s` bounds the whole scenario (every wait inside it).
 pub async fn run_tcp(mode: &Mode<'_>, case: &TcpCase, deadline_s: u64, uniq: u64) -> TcpOutcome {
     let t0 = Instant::now();
     let deadline = t0 + Duration::from_secs(deadline_s);
     let mut failures: Vec<Failure> = Vec::new();
     let mut stats = TcpStats::default();
-    let fam = case.entry.family();
+    let fam_s = case.family();
+    let fam = fam_s.as_str();
     let machinery = |m: String| TcpOutcome {
         failures: vec![Failure { key: "machinery".into(), desc: m, deadline: false }],
         obs: json!({"machinery": true}),
         port_race: false,
         stats: TcpStats::default(),
         wall: t0.elapsed(),
+        vacuous: None,
     };
 
     // ---- target
     let refuse = case.order == Order::Refuse;
     let mut refusing = None;
-    let mut listener = None;
+    let mut listeners: Vec<TcpListener> = Vec::new();
     let target: SocketAddr = if refuse {
         let r = env::refusing_port();
         let a = r.addr;
         refusing = Some(r);
         a
+    } else if let Some(d) = case.dual {
+        // one port number, on the loopback address(es) of this matrix point
+        let mut first = None;
+        for attempt in 0..50 {
+            listeners.clear();
+            let l = match TcpListener::bind(if d.listen == Listen::V6 { "[::1]:0" } else { "127.0.0.1:0" }).await {
+                Ok(l) => l,
+                Err(e) => return machinery(format!("bind target: {e}")),
+            };
+            let a = l.local_addr().expect("target addr");
+            listeners.push(l);
+            if d.listen == Listen::Both {
+                match TcpListener::bind(("::1", a.port())).await {
+                    Ok(l6) => listeners.push(l6),
+                    Err(_) if attempt < 49 => continue,
+                    Err(e) => return machinery(format!("bind target on [::1]:{}: {e}", a.port())),
+                }
+            }
+            first = Some(a);
+            break;
+        }
+        first.expect("target addr")
     } else {
         let l = match TcpListener::bind(if case.entry.v6literal() { "[::1]:0" } else { "127.0.0.1:0" }).await {
             Ok(l) => l,
             Err(e) => return machinery(format!("bind target: {e}")),
         };
         let a = l.local_addr().expect("target addr");
-        listener = Some(l);
+        listeners.push(l);
         a
     };
-    if case.entry.v6literal() && refuse {
+    if (case.entry.v6literal() || case.dual.is_some()) && refuse {
         return machinery(format!("{}: not a point of the matrix", case.label()));
+    }
+    if case.dual.is_some() && (!DUAL_ENTRIES.contains(&case.entry) || case.conc != 1) {
+        return machinery(format!("{}: not a point of the matrix", case.label()));
+    }
+
+    // ---- dual-stack sub-matrix: the reference behaviour is observed, not written down. A direct
+    // connection to (name, port), made by this process (the server runs in it), one byte each way.
+    let mut control_note = String::new();
+    let mut control_obs = Value::Null;
+    if let Some(d) = case.dual {
+        match dual_control(d.name.host(), target.port(), &listeners).await {
+            Ok((peer, resolved)) => {
+                control_note = format!("; {} resolves to {resolved:?} here and a direct TcpStream::connect((\"{}\", {})) made by this process just before reached the target at {peer} and exchanged a byte in each direction", d.name.host(), d.name.host(), target.port());
+                control_obs = json!({"direct_connection": "works", "reached": peer.ip().to_string(), "resolved": resolved.iter().map(|a| a.ip().to_string()).collect::<Vec<_>>()});
+            }
+            Err(why) => {
+                return TcpOutcome {
+                    failures: Vec::new(),
+                    obs: json!({"vacuous": true, "direct_connection": why}),
+                    port_race: false,
+                    stats: TcpStats::default(),
+                    wall: t0.elapsed(),
+                    vacuous: Some(why),
+                };
+            }
+        }
     }
 
     // ---- entry point + subject
@@ -552,7 +749,7 @@ pub async fn run_tcp(mode: &Mode<'_>, case: &TcpCase, deadline_s: u64, uniq: u64
             EntryPoint { tcp: Some(a), unix: None }
         }
         Mode::Penguin(envr) => {
-            domain = envr.domain.clone();
+            domain = case.dual.map_or_else(|| envr.domain.clone(), |d| d.name.host().to_string());
             let (remote, ep) = match case.entry {
                 Entry::UnixRemote => {
                     let p = envr.tmp.join(format!("e{uniq}.sock"));
@@ -565,6 +762,7 @@ pub async fn run_tcp(mode: &Mode<'_>, case: &TcpCase, deadline_s: u64, uniq: u64
                     let lp = l.port;
                     lease = Some(l);
                     let spec = match other {
+                        Entry::TcpRemote if case.dual.is_some() => format!("127.0.0.1:{lp}:{domain}:{}", target.port()),
                         Entry::TcpRemote => format!("127.0.0.1:{lp}:127.0.0.1:{}", target.port()),
                         Entry::TcpRemoteV6 => format!("127.0.0.1:{lp}:[{}]:{}", target.ip(), target.port()),
                         Entry::HttpConnect | Entry::HttpConnectV6 => format!("127.0.0.1:{lp}:http"),
@@ -591,20 +789,21 @@ pub async fn run_tcp(mode: &Mode<'_>, case: &TcpCase, deadline_s: u64, uniq: u64
     let accepted = Arc::new(AtomicUsize::new(0));
     let spurious = Arc::new(AtomicUsize::new(0));
     let mut tasks = Vec::new();
-    if let Some(l) = listener.take() {
+    let held_all: Arc<Mutex<Vec<TcpStream>>> = Arc::new(Mutex::new(Vec::new()));
+    for l in listeners.drain(..) {
+        let held = held_all.clone();
         let tst2 = tst.clone();
         let case2 = case.clone();
         let done2 = done_tx.clone();
         let accepted2 = accepted.clone();
         let spurious2 = spurious.clone();
         tasks.push(tokio::spawn(async move {
-            let mut held = Vec::new();
             loop {
                 let Ok((s, _)) = l.accept().await else { return };
                 let j = accepted2.fetch_add(1, Ordering::SeqCst);
                 if j >= case2.conc {
                     spurious2.fetch_add(1, Ordering::SeqCst);
-                    held.push(s);
+                    held.lock().unwrap_or_else(std::sync::PoisonError::into_inner).push(s);
                     continue;
                 }
                 let _ = s.set_nodelay(true);
@@ -635,7 +834,7 @@ pub async fn run_tcp(mode: &Mode<'_>, case: &TcpCase, deadline_s: u64, uniq: u64
     let expected = if refuse { n } else { 2 * n };
     let mut got = 0usize;
     let mut timed_out = false;
-    // IPv6-literal sub-matrix: every local connection is over, one of them ended before it had the
+    // IPv6-literal and dual-stack sub-matrices: every local connection is over, one of them ended before it had the
     // target's payload, and the target was never connected to. Nothing that happens later can
     // repair that, so the scenario ends here instead of waiting for a target that nobody will reach.
     let mut closed_unreached = false;
@@ -648,6 +847,8 @@ pub async fn run_tcp(mode: &Mode<'_>, case: &TcpCase, deadline_s: u64, uniq: u64
                 return false;
             }
             short |= g.finished && g.rx_end.is_some() && g.rx.len() < case.t2c;
+            // dual-stack sub-matrix: a refusal (or a close) instead of the grant is final as well
+            short |= case.dual.is_some() && g.shake.as_ref().is_some_and(|sh| matches!(sh, Shake::Refused(_) | Shake::Closed(_)));
         }
         short
     };
@@ -657,7 +858,7 @@ pub async fn run_tcp(mode: &Mode<'_>, case: &TcpCase, deadline_s: u64, uniq: u64
             timed_out = true;
             break;
         }
-        if case.entry.v6literal() && !refuse && accepted.load(Ordering::SeqCst) < n && over_and_short(&cst) {
+        if (case.entry.v6literal() || case.dual.is_some()) && !refuse && accepted.load(Ordering::SeqCst) < n && over_and_short(&cst) {
             // a connection that is on its way to the target right now still counts as having reached it
             tokio::time::sleep(Duration::from_millis(250)).await;
             if accepted.load(Ordering::SeqCst) < n {
@@ -749,6 +950,15 @@ pub async fn run_tcp(mode: &Mode<'_>, case: &TcpCase, deadline_s: u64, uniq: u64
                 all_connected = false;
                 push(format!("tcp.handshake.malformed.{fam}"), format!("local connection {i}: {} answer violates the protocol: {m}", case.entry.name()), false);
             }
+            Some(Shake::Refused(m) | Shake::Closed(m)) if case.dual.is_some() && accepted.load(Ordering::SeqCst) == 0 => {
+                // the same thing as a grant followed by a close, seen one protocol step earlier
+                all_connected = false;
+                push(
+                    format!("tcp.closed.target-not-reached.{fam}"),
+                    format!("local connection {i}: the {} entry point answered the request for the target {domain}:{} (which listens on {} and accepts) with {} ({m}); the target was never connected to{control_note}", case.entry.name(), target.port(), case.dual.map_or("", |d| d.listen.name()), if matches!(c.shake, Some(Shake::Refused(_))) { "a refusal" } else { "a close" }),
+                    false,
+                );
+            }
             Some(Shake::Refused(m)) => {
                 if refuse {
                     stats.refuse_refused_reply += 1;
@@ -798,7 +1008,10 @@ pub async fn run_tcp(mode: &Mode<'_>, case: &TcpCase, deadline_s: u64, uniq: u64
             let ends: Vec<String> = cs.iter().map(|c| format!("received {} of {} bytes then {}, wrote {} of {} bytes{}", c.rx.len(), case.t2c, c.rx_end.as_deref().unwrap_or("-"), c.tx_bytes, case.c2t, c.tx_err.as_ref().map_or_else(String::new, |e| format!(" (write error {e})")))).collect();
             push(
                 format!("tcp.closed.target-not-reached.{fam}"),
-                format!("the {} entry point granted the request for the target {target} (which listens and accepts), then ended the local connection without the target ever having been connected to ({acc} of {n} connections reached it); local connections: {ends:?}", case.entry.name()),
+                match case.dual {
+                    None => format!("the {} entry point granted the request for the target {target} (which listens and accepts), then ended the local connection without the target ever having been connected to ({acc} of {n} connections reached it); local connections: {ends:?}", case.entry.name()),
+                    Some(d) => format!("the {} entry point granted the request for the target {domain}:{} (which listens on {} and accepts), then ended the local connection without the target ever having been connected to ({acc} of {n} connections reached it); local connections: {ends:?}{control_note}", case.entry.name(), target.port(), d.listen.name()),
+                },
                 false,
             );
         } else if acc < n {
@@ -822,7 +1035,11 @@ pub async fn run_tcp(mode: &Mode<'_>, case: &TcpCase, deadline_s: u64, uniq: u64
     let mut keys: Vec<String> = failures.iter().map(|f| f.key.clone()).collect();
     keys.sort();
     keys.dedup();
-    TcpOutcome { obs: json!({"client_side": obs_c, "target_side": obs_t, "failure_keys": keys}), failures, port_race, stats, wall: t0.elapsed() }
+    let mut obs = json!({"client_side": obs_c, "target_side": obs_t, "failure_keys": keys});
+    if case.dual.is_some() {
+        obs["control"] = control_obs;
+    }
+    TcpOutcome { obs, failures, port_race, stats, wall: t0.elapsed(), vacuous: None }
 }
 
 fn classify(got: &[u8], want: &[u8]) -> (&'static str, String) {
@@ -877,7 +1094,8 @@ fn permutations(n: usize) -> Vec<Vec<usize>> {
 
 fn evaluate_data(case: &TcpCase, cs: &[Side], ts: &[Side], deadline_s: u64, stats: &mut TcpStats, push: &mut impl FnMut(String, String, bool)) {
     let n = case.conc;
-    let fam = case.entry.family();
+    let fam_s = case.family();
+    let fam = fam_s.as_str();
     let ord = case.order.name();
     let c_pay: Vec<Vec<u8>> = (0..n).map(|i| payload(case.c2t, i, 0)).collect();
     let t_pay: Vec<Vec<u8>> = (0..n).map(|j| payload(case.t2c, j, 1)).collect();
